@@ -167,14 +167,14 @@ Theorem C05_popon_stage1_refines_partial : forall d r off tc tc2 t1 t2, basic_ro
 Proof. exact popon_stage1_ok. Qed.
 Print Assumptions C05_popon_stage1_refines_partial.
 Example C05_stage1_nonvacuous :
-  basic_row (mkRow 15 4 2 false [Ch 72; Ch 105; Ch 33]) = true /\
-  emit_load true [mkRow 15 4 2 false [Ch 72; Ch 105; Ch 33]] =
+  basic_row (mkRow 15 4 2 0 [Ch 72; Ch 105; Ch 33]) = true /\
+  emit_load true [mkRow 15 4 2 0 [Ch 72; Ch 105; Ch 33]] =
     [38062; 38062; 37920; 37920; 38130; 38818; 38130; 38818; 51433; 41344; 37935; 37935].
 Proof. vm_compute. split; reflexivity. Qed.
 
 (* ---- non-vacuity / behaviour after fix #22: the second caption is addressed on its own ---------------------------- *)
 Example C05_example_two_loads :
-  let p := mkProg false [[mkRow 14 0 0 false [Ch 97]]; [mkRow 15 4 0 false [Ch 98]]] in
+  let p := mkProg false [[mkRow 14 0 0 0 [Ch 97]]; [mkRow 15 4 0 0 [Ch 98]]] in
   let ls := [(lit "00:00:01:00", emit_load false (nth 0 (pg_loads p) [])); (lit "00:00:03:00", emit_load false (nth 1 (pg_loads p) []));
              (lit "00:00:05:00", emit_clear false)] in
   match read 0 ls with
